@@ -28,6 +28,7 @@ type limitCase struct {
 }
 
 func (c *child) signOrDie(t *typeSpec, h map[string]interface{}, body []byte) (asserts.Assertion, []byte) {
+	c.prepTick("signing a limit case")
 	a, err := c.sg.sign(t, h, body)
 	if err != nil {
 		panic(fmt.Sprintf("harness: cannot sign limit case: %v", err))
@@ -47,7 +48,7 @@ func (c *child) planLimits() (int, func(int)) {
 			repair = &typeSpecs[i]
 		}
 	}
-	c.setInflight(-1, "building limit cases", nil)
+	c.prepTick("building limit cases")
 	baseH := func(t *typeSpec) map[string]interface{} { h, _ := t.base(c.sg, r); return h }
 	_, follower := c.signOrDie(acct, baseH(acct), []byte("follower\n"))
 
@@ -122,6 +123,7 @@ func (c *child) planLimits() (int, func(int)) {
 		a, _ := c.signOrDie(acct, baseH(acct), body)
 		content, _ := a.Signature()
 		mk := func(sigLen int, terminated bool) ([]byte, []byte) {
+			c.prepTick("building a signature limit case")
 			sig := bytes.Repeat([]byte("S"), sigLen)
 			d := append(append(append([]byte(nil), content...), '\n', '\n'), sig...)
 			if terminated {
